@@ -59,6 +59,8 @@ type Contract struct {
 	Obj        *types.Func
 	recvExpr   ast.Expr
 	funcName   string
+	Sig        *types.Signature
+	funcType   string // named func type for "functype" contracts
 	// Uninterp: the body is never inlined nor verified; calls use the contract only
 }
 
@@ -97,6 +99,7 @@ type SpecDB struct {
 	zeroDecls []zeroDecl
 	Immutable map[string]bool // type strings whose referents are never modified (refs are values)
 	Errors    []string
+	Skipped   []string
 	Files     []string
 }
 
@@ -115,6 +118,7 @@ type opaqueDecl struct {
 	T       *TypeExpr
 	PkgPath string
 	Imports map[string]string
+	SameAs  *TypeExpr
 }
 
 func newSpecDB() *SpecDB {
@@ -150,7 +154,7 @@ func (db *SpecDB) parseSpecFile(file string, pkgPath string) {
 		s  string
 	}
 	var ents []ent
-	topKw := map[string]bool{"import": true, "package": true, "opaque": true, "immutable": true, "ghost": true, "axiom": true, "func": true, "loop": true, "zeroinit": true}
+	topKw := map[string]bool{"import": true, "package": true, "opaque": true, "immutable": true, "ghost": true, "axiom": true, "func": true, "loop": true, "zeroinit": true, "functype": true}
 	for i, raw := range lines {
 		l := strings.TrimSpace(raw)
 		var body string
@@ -211,15 +215,25 @@ func (db *SpecDB) parseSpecFile(file string, pkgPath string) {
 			}
 		case "opaque", "immutable":
 			r := strings.TrimSpace(strings.TrimPrefix(rest, "type"))
+			var same *TypeExpr
+			if i := strings.Index(r, "="); i > 0 {
+				st, err := parseTypeExpr(strings.TrimSpace(r[i+1:]))
+				if err != nil {
+					errf(en.ln, "%v", err)
+					continue
+				}
+				same = st
+				r = strings.TrimSpace(r[:i])
+			}
 			te, err := parseTypeExpr(r)
 			if err != nil {
 				errf(en.ln, "%v", err)
 				continue
 			}
 			if w == "opaque" {
-				db.Opaque = append(db.Opaque, opaqueDecl{te, pkgPath, copyMap(imports)})
+				db.Opaque = append(db.Opaque, opaqueDecl{T: te, PkgPath: pkgPath, Imports: copyMap(imports), SameAs: same})
 			} else {
-				db.Opaque = append(db.Opaque, opaqueDecl{&TypeExpr{Kind: "immutable", V: te}, pkgPath, copyMap(imports)})
+				db.Opaque = append(db.Opaque, opaqueDecl{T: &TypeExpr{Kind: "immutable", V: te}, PkgPath: pkgPath, Imports: copyMap(imports)})
 			}
 		case "zeroinit":
 			// zeroinit T : expr-over-this
@@ -279,9 +293,20 @@ func (db *SpecDB) parseSpecFile(file string, pkgPath string) {
 			}
 			db.Axioms = append(db.Axioms, &Axiom{strings.TrimSpace(rest[:i]), e, rest[i+1:], pkgPath, copyMap(imports)})
 			cur, curLoop = nil, nil
-		case "func":
+		case "func", "functype":
 			c := &Contract{File: file, Line: en.ln, PkgPath: pkgPath, Imports: copyMap(imports), SigSrc: body, Loops: map[int]*LoopSpec{}, Props: map[string]bool{}}
-			if err := c.parseSig(body); err != nil {
+			sigSrc := body
+			if w == "functype" {
+				// functype pkg.Name(params) results
+				i := strings.Index(rest, "(")
+				if i < 0 {
+					errf(en.ln, "bad functype line")
+					continue
+				}
+				c.funcType = strings.TrimSpace(rest[:i])
+				sigSrc = "func functype" + rest[i:]
+			}
+			if err := c.parseSig(sigSrc); err != nil {
 				errf(en.ln, "%v", err)
 				cur = nil
 				continue
@@ -621,14 +646,42 @@ func (db *SpecDB) resolveContracts(P *Program) {
 	sort.Strings(keys)
 	for _, k := range keys {
 		c := old[k]
-		obj, err := c.resolveFunc(P)
-		if err != nil {
-			db.Errors = append(db.Errors, fmt.Sprintf("%s:%d: %v", c.File, c.Line, err))
+		var sig *types.Signature
+		if c.PkgPath != "" && P.lookupPkg(c.PkgPath) == nil {
+			// contract for a package that is not part of this load: irrelevant here (a wrong path would also leave
+			// the functions that need it without contract, which the checks report)
+			db.Skipped = append(db.Skipped, fmt.Sprintf("%s:%d (package %s not loaded)", c.File, c.Line, c.PkgPath))
 			continue
 		}
-		c.Obj = obj
-		c.Key = obj.FullName()
-		sig := obj.Type().(*types.Signature)
+		if c.funcType != "" {
+			o, err := P.resolveNamed(c.funcType, c.PkgPath, c.Imports)
+			if err != nil {
+				db.Errors = append(db.Errors, fmt.Sprintf("%s:%d: %v", c.File, c.Line, err))
+				continue
+			}
+			tn, ok := o.(*types.TypeName)
+			if !ok {
+				db.Errors = append(db.Errors, fmt.Sprintf("%s:%d: %s is not a type", c.File, c.Line, c.funcType))
+				continue
+			}
+			sg, ok := tn.Type().Underlying().(*types.Signature)
+			if !ok {
+				db.Errors = append(db.Errors, fmt.Sprintf("%s:%d: %s is not a function type", c.File, c.Line, c.funcType))
+				continue
+			}
+			sig = sg
+			c.Key = "dyncall:" + typeStr(tn.Type())
+		} else {
+			obj, err := c.resolveFunc(P)
+			if err != nil {
+				db.Errors = append(db.Errors, fmt.Sprintf("%s:%d: %v", c.File, c.Line, err))
+				continue
+			}
+			c.Obj = obj
+			c.Key = obj.FullName()
+			sig = obj.Type().(*types.Signature)
+		}
+		c.Sig = sig
 		if sig.Params().Len() != len(c.Params) {
 			db.Errors = append(db.Errors, fmt.Sprintf("%s:%d: %s has %d parameters, contract declares %d", c.File, c.Line, c.Key, sig.Params().Len(), len(c.Params)))
 			continue
